@@ -5,6 +5,7 @@ Import ListNotations.
 Require Import Verif.Front.Indent Verif.Front.IndentProps Verif.Front.Lines Verif.Front.LinesProps Verif.Front.Tables Verif.Gen.LexerTables.
 Require Import Verif.Front.DocStr Verif.Front.DocStrProps Verif.Front.DocTables Verif.Gen.ListenerDoc.
 Require Import Verif.Front.LexState Verif.Front.LexStateProps Verif.Front.RunState Verif.Front.StateTables Verif.Gen.LexerState.
+Require Verif.Front.ImportScan Verif.Front.ImportScanProps Verif.Front.RunImp Verif.Front.ImportTables Verif.Gen.ImportScan.
 Local Open Scope N_scope.
 
 (* ---- the synthesis loop is total (shared with C01): never pops an empty stack, ends within height+1 rounds ---- *)
@@ -194,3 +195,119 @@ Theorem C03_default_line_ends_agree :
   same_ext_ops F0 lst_NEWLINE lst_EMPTY_COMMENT.
 Proof. exact default_line_ends_agree. Qed.
 Print Assumptions C03_default_line_ends_agree.
+
+(* ================= the import section: textual pre-scan (extractImports) against the full parse ================= *)
+(* names of Front/ImportScan*.v are written qualified *)
+Module IS := Verif.Front.ImportScan.
+Module ISP := Verif.Front.ImportScanProps.
+Module IST := Verif.Front.ImportTables.
+
+(* the line view is faithful: cutting a text at LF and joining the lines again are inverse to each other *)
+Theorem C03_import_lines_roundtrip :
+  (forall s, IS.join (IS.split_lf s) = s) /\ (forall ls, ISP.wf_lines ls -> IS.split_lf (IS.join ls) = ls).
+Proof. exact (conj ISP.join_split ISP.split_join). Qed.
+Print Assumptions C03_import_lines_roundtrip.
+
+(* partial by necessity (see the refutations): for every statement parser, all parameters of the source and every
+   file - whenever the full parse accepts the import section (Head / Body), the pre-scan leads to exactly its
+   import statements, in order, PROVIDED every line fits the scanner, every line that carries an IMPORT token starts
+   with the keyword in column 0 of its LF-line, and no line of the application part passes isImportLine (tidy) *)
+Theorem C03_import_prescan_agrees_partial : forall p stmt content,
+  ISP.params_wf p = true ->
+  IS.fits (IS.limit_of p content) (IS.split_lf content) = true ->
+  IS.tidy p false (IS.split_lf content) = true ->
+  ISP.eol_ok stmt (IS.split_lf content) ->
+  ISP.agrees (IS.full_parse p stmt content) (IS.prescan p stmt content).
+Proof. exact ISP.prescan_agrees_partial. Qed.
+Print Assumptions C03_import_prescan_agrees_partial.
+
+(* full, current source (with fix C03-2 no line is too long): every layout of the import section - lines of hidden
+   tokens (blank, white space, comments of any indentation, LF or CR LF), import lines that start in column 0 with ANY
+   blank of the lexer's WS behind the keyword (trailing blanks / comment / `as` / mode: whatever the statement parser
+   accepts), then an application part no line of which starts with the keyword and a blank *)
+Theorem C03_import_section_layouts_agree : forall stmt content,
+  ISP.section_layout RunImp.P0 (IS.split_lf content) -> ISP.eol_ok stmt (IS.split_lf content) ->
+  ISP.agrees (IS.full_parse RunImp.P0 stmt content) (IS.prescan RunImp.P0 stmt content).
+Proof. exact IST.current_section_layouts_agree. Qed.
+Print Assumptions C03_import_section_layouts_agree.
+
+Theorem C03_import_section_layout_is_tidy : forall p ls gn,
+  ISP.params_wf p = true -> ISP.seps_cover_ws p = true -> ISP.section_layout p ls -> IS.tidy p gn ls = true.
+Proof. exact (fun p ls gn => ISP.section_layout_is_tidy p ls gn). Qed.
+Print Assumptions C03_import_section_layout_is_tidy.
+
+(* the pre-scan alone: any line that does not pass isImportLine may be put in or taken out anywhere *)
+Theorem C03_import_prescan_layout_invariant : forall p stmt limit ls1 l ls2,
+  IS.fits limit (ls1 ++ l :: ls2) = true -> IS.is_import_line p (IS.drop_cr (fst l)) = false ->
+  ISP.scanned p stmt limit (ls1 ++ l :: ls2) = ISP.scanned p stmt limit (ls1 ++ ls2).
+Proof. exact ISP.prescan_ignores_other_lines. Qed.
+Print Assumptions C03_import_prescan_layout_invariant.
+
+(* the full parse alone: a line of hidden tokens may be put in or taken out anywhere but in front of the first line *)
+Theorem C03_import_full_layout_invariant : forall p stmt pre l rest gn,
+  (gn = true \/ pre <> []) -> IS.classify p true false (fst l) (snd l) = IS.CLayout ->
+  IS.full p stmt gn (pre ++ l :: rest) = IS.full p stmt gn (pre ++ rest).
+Proof. exact ISP.full_ignores_layout_lines. Qed.
+Print Assumptions C03_import_full_layout_invariant.
+
+Theorem C03_import_full_layout_before_first_line_refuted :
+  IS.full ISP.P1 IS.stmt0 false [([32;32;105;109;112;111;114;116;32;97], true)] = IS.Head [97] /\
+  IS.full ISP.P1 IS.stmt0 false [([], true); ([32;32;105;109;112;111;114;116;32;97], true)] = IS.Rejected.
+Proof. exact ISP.full_layout_before_first_line_refuted. Qed.
+Print Assumptions C03_import_full_layout_before_first_line_refuted.
+
+(* the scanner: with scanner.Buffer(_, len(content)+k), k >= 1, every line fits *)
+Theorem C03_import_scanner_holds_every_line : forall p content k,
+  IS.ip_limit p = IS.SLContentPlus k -> 1 <= k -> IS.fits (IS.limit_of p content) (IS.split_lf content) = true.
+Proof. exact ISP.content_plus_fits. Qed.
+Print Assumptions C03_import_scanner_holds_every_line.
+
+(* where the two readers disagree at the current source (statement parser stmt0) *)
+Theorem C03_import_agree_refuted_first_line_indented :
+  IS.full_parse ISP.P1 IS.stmt0 ISP.t_first_line_indented = IS.Body [97] /\
+  IS.prescan ISP.P1 IS.stmt0 ISP.t_first_line_indented = Some [].
+Proof. exact ISP.agree_refuted_first_line_indented. Qed.
+Print Assumptions C03_import_agree_refuted_first_line_indented.
+
+Theorem C03_import_agree_refuted_blanks_cr :
+  IS.full_parse ISP.P1 IS.stmt0 ISP.t_blanks_cr = IS.Head [97] /\ IS.prescan ISP.P1 IS.stmt0 ISP.t_blanks_cr = Some [].
+Proof. exact ISP.agree_refuted_blanks_cr. Qed.
+Print Assumptions C03_import_agree_refuted_blanks_cr.
+
+Theorem C03_import_agree_refuted_line_inside_token :
+  IS.full_parse ISP.P1 IS.stmt0 ISP.t_string_line = IS.Body [] /\ IS.prescan ISP.P1 IS.stmt0 ISP.t_string_line = Some [98].
+Proof. exact ISP.agree_refuted_line_inside_token. Qed.
+Print Assumptions C03_import_agree_refuted_line_inside_token.
+
+Theorem C03_import_agree_refuted_application_named_import :
+  IS.full_parse ISP.P1 IS.stmt0 ISP.t_app_named_import = IS.Body [] /\ IS.prescan ISP.P1 IS.stmt0 ISP.t_app_named_import = None.
+Proof. exact ISP.agree_refuted_application_named_import. Qed.
+Print Assumptions C03_import_agree_refuted_application_named_import.
+
+(* with the default scanner buffer (the source before fix C03-2) a line of 65536 bytes ends the scan *)
+Theorem C03_import_agree_refuted_long_line_default_buffer :
+  IS.full_parse ISP.P1_default_buffer IS.stmt0 ISP.t_long_line = IS.Head [97] /\
+  IS.prescan ISP.P1_default_buffer IS.stmt0 ISP.t_long_line = Some [] /\
+  IS.prescan ISP.P1 IS.stmt0 ISP.t_long_line = Some [97].
+Proof. exact ISP.agree_refuted_long_line_default_buffer. Qed.
+Print Assumptions C03_import_agree_refuted_long_line_default_buffer.
+
+(* obligations against the source *)
+Theorem C03_import_params_current :
+  RunImp.P0 = ISP.P1 /\ ISP.params_wf RunImp.P0 = true /\ ISP.seps_cover_ws RunImp.P0 = true /\
+  forallb (fun c => IS.mem c (IS.ip_ws RunImp.P0)) (IS.ip_seps RunImp.P0) = true.
+Proof. exact (conj IST.current_params_are IST.current_params_wf). Qed.
+Print Assumptions C03_import_params_current.
+
+(* isImportLine / extractImports / the caller in collectSpecs are, statement by statement, what Front/ImportScan.v
+   transliterates; the lexer and parser rules that decide what the first token of a line of the import section is are
+   the ones the line classifier was written against *)
+Theorem C03_import_scan_code :
+  Verif.Gen.ImportScan.isc_shapes = IST.expected_scan_shapes /\ Verif.Gen.ImportScan.isc_caller = IST.expected_scan_caller.
+Proof. exact (conj IST.import_scan_shapes IST.import_scan_caller). Qed.
+Print Assumptions C03_import_scan_code.
+
+Theorem C03_import_grammar_rules :
+  Verif.Gen.ImportScan.isc_lexer_rules = IST.expected_lexer_rules /\ Verif.Gen.ImportScan.isc_parser_rules = IST.expected_parser_rules.
+Proof. exact IST.import_grammar_rules. Qed.
+Print Assumptions C03_import_grammar_rules.
